@@ -19,8 +19,17 @@ REQUIRED_THEOREMS = [
     "C16.sequential_promptness",
     "C16.sequential_overlap_raises",
     "C16.sequential_close_leaves_clean",
+    "M1L.return_correct",
+    "M1L.quiescent_termination",
+    "M1LSeq.stale_steps_are_noops",
+    "M1LSeq.current_call_refines_M1L",
+    "M1LSeq.next_call_is_fresh",
+    "M1LSeq.clean_call_returns_seq",
 ]
+EXTRA_LEAN_MODULES = ("JoblibProofs.M1L", "JoblibProofs.M1LSeq")
+EXTRA_LEAN_TARGETS = ("drv_m1l", "drv_m1lseq")
 TRUSTED_EXTRA = [
+    "M1L / M1L-Seq (theorems M1L.*, M1LSeq.*): the ordered generator consumed to the end and sequences of calls with callback threads of earlier calls still alive, at lock-boundary granularity, every interleaving; tied by step-log equality of forced real-thread schedules (harness/m1_lock.py); abandoned generators and generator_unordered are NOT in these two models (M1 only)",
     "M1 granularity: completion callbacks are atomic and happen at hook points of the caller (configure, compute_batch_size, sleep, consumer "
     "pauses, inside backend.abort_everything, between two calls and after the last one); interleavings inside a callback or between two bytecodes of the caller are not in the model",
     "modelled, not verified: the backend contract (each submitted batch executed at most once, its callback invoked at most once), "
